@@ -390,6 +390,24 @@ def run(fx, chk, cg, tw):
                         touched.add(pr[-1]["adt"])
                     if s["rv"]["k"] == "agg" and s["rv"].get("adt") in tables:
                         touched.add(s["rv"]["adt"])
+        # creation through Option::get_or_insert_with / insert / get_or_insert / replace on the table field
+        creating_calls = {}
+        for b, t in body.calls():
+            if strip_generics(t["callee"].get("path") or "") in ("core::option::Option::get_or_insert_with", "core::option::Option::get_or_insert", "core::option::Option::insert", "core::option::Option::replace") and t["args"]:
+                pl = op_place(t["args"][0])
+                d = body.single_def(pl["l"]) if pl is not None and not pl["p"] else None
+                src = d[3]["place"] if d and d[2] == "assign" and d[3]["k"] == "ref" else None
+                # follow one more level: `let stbl = &mut self...stbl; stbl.stss.get_or_insert_with(..)`
+                if src is not None:
+                    root = src
+                    d2 = body.single_def(src["l"]) if src["l"] != 1 else None
+                    pr = list(src["p"])
+                    if d2 and d2[2] == "assign" and d2[3]["k"] == "ref":
+                        pr = list(d2[3]["place"]["p"]) + [x for x in pr if x != "deref"]
+                    last = pr[-1] if pr else None
+                    if isinstance(last, dict) and short(last.get("adt") or "") == "StblBox":
+                        created.add(last["f"])
+                        creating_calls.setdefault(last["f"], set()).add(b)
         vec_pushes = [(b, t) for b, t in body.calls() if strip_generics(t["callee"].get("path") or "") == "alloc::vec::Vec::push"]
         if not created and not touched and not vec_pushes:
             continue
@@ -407,7 +425,11 @@ def run(fx, chk, cg, tw):
                     continue
                 ent = entry_state(sw[f], blocks)
                 stored = any(e.kind == "assign" and e.data["place"]["l"] == 1 and e.data["place"]["p"] and isinstance(e.data["place"]["p"][-1], dict) and e.data["place"]["p"][-1].get("f") == f and short(e.data["place"]["p"][-1].get("adt") or "") == "StblBox" for e in events)
-                if ent != "None" or stored:
+                if any(b0 in blocks for b0 in creating_calls.get(f, ())):
+                    stored = True
+                if (ent != "None" and (sw[f] or ent is not None)) or stored:
+                    continue
+                if not sw[f] and not creating_calls.get(f):
                     continue
                 nabs += 1
                 psid = it.site_syms.get(("param", 2))
